@@ -27,8 +27,17 @@ func c13Same(a Name, b model.Name) bool {
 }
 func c13Eq(a, b Name) bool { return a.h == b.h && a.n == b.n && a.m == b.m && a.t == b.t }
 
+// c13N1Fixed probes which variant of finding N1 the tree under test has: "0" = pinned upstream
+// (host//model is IsValid), "1" = after proposed_fixes/C13-N1.patch.  The oracle takes it as a flag.
+var c13N1Fixed = func() string {
+	if Parse("h//m").IsValid() {
+		return "0"
+	}
+	return "1"
+}()
+
 func c13NameCase(out *zzverif.Out, s string) {
-	op := "nname " + zzverif.Hex([]byte(s))
+	op := "nname " + c13N1Fixed + " " + zzverif.Hex([]byte(s))
 	p := Parse(s)
 	m := Merge(p, c13Mask)
 	out.Case(op, fmt.Sprintf("p=%s valid=%s fq=%s str=%s merged=%s mfq=%s mstr=%s", c13Fields(p),
@@ -94,8 +103,8 @@ func c13PartCase(out *zzverif.Out, kind int, s string) {
 func c13Replay(out *zzverif.Out, line string) {
 	f := strings.Fields(line)
 	switch {
-	case len(f) == 2 && f[0] == "nname":
-		c13NameCase(out, string(zzverif.Unhex(f[1])))
+	case (len(f) == 2 || len(f) == 3) && f[0] == "nname": // the variant flag is re-probed, not replayed
+		c13NameCase(out, string(zzverif.Unhex(f[len(f)-1])))
 	case len(f) == 4 && f[0] == "vpart":
 		var k int
 		fmt.Sscan(f[2], &k)
